@@ -1,13 +1,19 @@
 import Driver.Util
 import AslModel.Model.Dis.I4004
 import AslModel.Model.Dis.M6800
+import AslModel.Model.Dis.HexLoad
 import AslModel.Spec.Dis
+import AslModel.Spec.Hex
 /-! Driver mode `c15`: one dasl run (+ the re-assembly of its output) per request line.
 
 request (blank separated):
   `<cpu 4004|6800> <lower 0|1> <n> {<start> <hex>}*n  <m> {d:<addr> | v:<va>:<len>:<M|L>[:<name>]}*m
    <rc> <stdout hex> <stderr hex>  <k|none> {<start> <hex>}*k`
   first chunk list = the loaded image in load order, second = memory of the re-assembled dasl output (none: asl failed).
+  Instead of `<n> {<start> <hex>}*n` the image may be given as ONE token `hex:<text of the Intel-hex file, hex encoded>`
+  (`-hexfile`): the MODEL image is then what `Model/Dis/HexLoad.lean` (das.c `CMD_HexFile`) builds from the text, including the
+  loader's stderr lines, and the SPEC memory is what the public format definition (`Spec/Hex.lean` `decodeIhex`) says the file
+  contains (`error=hexspec` when that decoder rejects the file, `load=rejected` when the model of `CMD_HexFile` does).
 answer: `model=<ok|rejected> rc=<eq|ne> text=<eq|ne> err=<eq|ne> l1=<eq|ne> hang=<0|1> areas=<eq|ne|unparsed>
          inside=<ok|fail> disjoint=<ok|fail> bytes=<ok|fail|na> bad=<addr|-> ncode=.. ndata=.. nbytes=.. ninstr=.. [mtext=<hex>]`
  * text/err/rc/areas – (B) model against the real run;  l1 – chunks.c array algorithm vs interval-set insertion
@@ -25,6 +31,33 @@ def parseChunks : Nat → List String → Option (List (Nat × List UInt8) × Li
       | none => none
     | _, _ => none
   | _, _ => none
+
+/-- how the image of a request is given: SPEC memory, MODEL image, the model's stderr lines of the load option, accepted? -/
+structure Loaded where
+  mem : Spec.Mem
+  img : Image
+  err : List String
+  ok : Bool
+
+def parseImage : List String → Except String (Loaded × List String)
+  | [] => .error "parse1"
+  | tok :: rest =>
+    if tok.startsWith "hex:" then
+      match unhex (tok.drop 4).toString with
+      | none => .error "parse1"
+      | some bs =>
+        let text := bs.map (fun b => Char.ofNat b.toNat)
+        match AslModel.Hex.decodeIhex 0 text with
+        | none => .error "hexspec"
+        | some d =>
+          let mem := Spec.memOfCells d.cells
+          match HexLoad.loadHex text with
+          | none => .ok (⟨mem, [], [], false⟩, rest)
+          | some (img, e) => .ok (⟨mem, img, e, true⟩, rest)
+    else
+      match tok.toNat?.bind (fun k => parseChunks k rest) with
+      | some (imgc, rest') => .ok (⟨imgc, imgc.foldl (fun im c => imageInsert ⟨c.1, c.2⟩ im) [], [], true⟩, rest')
+      | none => .error "parse1"
 
 def parseEntry (s : String) : Option Entry :=
   match s.splitOn ":" with
@@ -52,21 +85,25 @@ def sameSet (a b : List Chunk) : Bool := sortChunks a == sortChunks b
 
 def handle (line : String) : String :=
   match words line with
-  | cpu :: lw :: n :: rest =>
-    match n.toNat?.bind (fun k => parseChunks k rest) with
-    | some (imgc, m :: rest2) =>
+  | cpu :: lw :: rest =>
+    match parseImage rest with
+    | .error e => "error=" ++ e
+    | .ok (_, []) => "error=parse1"
+    | .ok (ld, m :: rest2) =>
+      let imgc := ld.mem
       match m.toNat?.bind (fun k => parseEntries k rest2) with
       | some (entries, rc :: so :: se :: kk :: rest3) =>
         let re : Option Spec.Mem := if kk = "none" then none else (kk.toNat?.bind (fun k => parseChunks k rest3)).map (·.1)
         match rc.toInt?, unhex so, unhex se with
         | some rrc, some rso, some rse =>
           let lower := lw = "1"
-          let img : Image := imgc.foldl (fun im c => imageInsert ⟨c.1, c.2⟩ im) []
+          let img : Image := ld.img
           let dis : Option Disasm := if cpu = "4004" then some I4004.disassemble else if cpu = "6800" then some M6800.disassemble else none
           match dis with
           | none => "error=cpu"
           | some dis =>
-            let r := runDasl dis img lower entries 300000
+            let r0 := runDasl dis img lower entries 300000
+            let r : Result := if ld.ok then { r0 with stderr := ld.err ++ r0.stderr } else ⟨false, "", [], [], [], [], [], false⟩
             let realOut := strOfBytes rso
             let realErr := strOfBytes rse
             let mErr := String.join (r.stderr.map (· ++ "\n"))
@@ -76,6 +113,10 @@ def handle (line : String) : String :=
             -- (C) spec on the real output
             let areasReal := Spec.parseAreas realOut
             let areasModel : List Spec.Area := r.areas.map (fun p => ⟨p.1.start, p.1.start + p.1.len - 1, p.2⟩)
+            let direct : List Nat := entries.filterMap (fun e => match e with | .direct a => some a | _ => none)
+            let entryOk : String := match areasReal with
+              | none => "fail"
+              | some ar => if Spec.entriesCovered imgc ar direct then "ok" else "fail"
             let (areasCmp, ins, dj, by_, bad, ncode, ndata, nbytes) : String × String × String × String × String × Nat × Nat × Nat :=
               match areasReal with
               | none => ("unparsed", "fail", "fail", "na", "-", 0, 0, 0)
@@ -90,11 +131,10 @@ def handle (line : String) : String :=
                  if Spec.disjoint ar then "ok" else "fail", by_.1, by_.2,
                  (ar.filter (!·.isData)).length, (ar.filter (·.isData)).length,
                  ar.foldl (fun s x => s + (x.last + 1 - x.first)) 0)
-            let base := s!"model={if r.ok then "ok" else "rejected"} rc={if (rrc == 0) == r.ok then "eq" else "ne"} text={if textEq then "eq" else "ne"} err={if mErr == realErr then "eq" else "ne"} l1={if l1 then "eq" else "ne"} hang={if r.hang then 1 else 0} areas={areasCmp} inside={ins} disjoint={dj} bytes={by_} bad={bad} ncode={ncode} ndata={ndata} nbytes={nbytes} ninstr={r.traced.length}"
-            if textEq then base else base ++ " mtext=" ++ hex (bytesOfStr r.stdout) ++ " merr=" ++ hex (bytesOfStr mErr)
+            let base := s!"model={if r.ok then "ok" else "rejected"} load={if ld.ok then "ok" else "rejected"} rc={if (rrc == 0) == r.ok then "eq" else "ne"} text={if textEq then "eq" else "ne"} err={if mErr == realErr then "eq" else "ne"} l1={if l1 then "eq" else "ne"} hang={if r.hang then 1 else 0} areas={areasCmp} inside={ins} disjoint={dj} entry={entryOk} bytes={by_} bad={bad} ncode={ncode} ndata={ndata} nbytes={nbytes} ninstr={r.traced.length}"
+            if textEq && mErr == realErr then base else base ++ " mtext=" ++ hex (bytesOfStr r.stdout) ++ " merr=" ++ hex (bytesOfStr mErr)
         | _, _, _ => "error=parse3"
       | _ => "error=parse2"
-    | _ => "error=parse1"
   | _ => "error=parse0"
 
 end Driver.C15
